@@ -216,6 +216,25 @@ def exec_part(ctx, rp):
     ctx.obligation('executor under %d thread schedules: every accepted task is handed on once, with a true outcome' % n, 'tie', True, '')
 
 
+def signal_part(ctx, rp):
+    """tasks whose process is ended by a signal from outside RP (the OOM killer, an epilogue of the batch system, an
+    operator's kill, a segmentation fault): subprocess reports a negative return code; the task did not exit with code 0
+    and must not end DONE"""
+    from props import c07
+    rng = ctx.rng
+    n = 0
+    for _ in range(ctx.n(30, 600)):
+        b = [(u, False, rng.choice([0, 3, -9, -15, -11, -9])) for u in rng.sample(range(8), rng.randint(1, 4))]
+        evs = c07.run_bulk(rp, b)
+        n += 1
+        ctx.case({'signal_bulk': [list(x) for x in b]}, nontrivial=any(c < 0 for u, f, c in b))
+        bad = c07.bulk_monitor(b, evs)
+        if bad:
+            ctx.fail('executor:' + bad[0], bad[1] + ' (negative exit codes: the process was ended by a signal)', {'kind': 'signal_bulk', 'tasks': [list(x) for x in b]}, observed=evs)
+    ctx.obligation('real Popen.work + watcher on bulks whose processes exit with 0, a code, or are ended by a signal (negative return code): '
+                   'DONE only for exit code 0 (%d bulks)' % n, 'tie', True, '')
+
+
 def gen_early_script(rng):
     """client-side scheduler callbacks in which tasks naming a pilot arrive (in several bulks) before,
     between and after the add_pilots command of that pilot; at the end every pilot named is added"""
@@ -463,6 +482,7 @@ def run(ctx):
     rng = ctx.rng
     master_part(ctx, rp)
     exec_part(ctx, rp)
+    signal_part(ctx, rp)
     tmgrsched_part(ctx, rp)
     agentsched_part(ctx, rp)
     from props import timeoutsuite
@@ -572,6 +592,11 @@ def replay(ctx, data):
             print('raised', repr(e)); return False
         print('handed on:', handed)
         return handed == [('task.%06d' % k, 'DONE' if c == 0 else 'FAILED') for k, c in enumerate(i['codes'])]
+    if i.get('kind') == 'signal_bulk':
+        from props import c07
+        b = [tuple(x) for x in i['tasks']]
+        evs = c07.run_bulk(rp, b); bad = c07.bulk_monitor(b, evs); print(evs, bad)
+        return not bad
     if i.get('kind') == 'backlog':
         from props import c20
         r = c20.run_fwd(rp, i['ops']); bad = c20.fwd_monitor(i['ops'], r, i['n']); print(r, bad)
